@@ -51,7 +51,7 @@ class Lock:
 
 def v_files():
 	out = []
-	for d in ('Base', 'Gen', 'Spec', 'Model', 'Proofs', 'Props', 'Entry'):
+	for d in ('Base', 'Gen', 'Spec', 'Model', 'Proofs', 'Props', 'Ties', 'Entry'):
 		out += sorted(glob.glob(os.path.join(TH, d, '*.v')))
 	return out
 
@@ -193,10 +193,19 @@ def vo_ok(rel):
 	return os.path.exists(vo) and os.path.exists(v) and os.path.getmtime(vo) >= os.path.getmtime(v)
 
 
-def theorem_status(prop):
+def tie_status(prop):
+	"""Advisory syntactic ties (theories/Ties/T<nn>.v, see the header of those files): same parsing as
+	theorem_status, but nothing here is an obligation of the property."""
+	rel = f'theories/Ties/T{prop[1:]}.v'
+	if not os.path.exists(os.path.join(COQ, rel)):
+		return None
+	return theorem_status(prop, rel)
+
+
+def theorem_status(prop, rel=None):
 	"""Compile Props/<prop>.v on its own and parse `Print Assumptions`.
 	-> dict(theorems=[{name, ok, axioms, bad_axioms}], compiled=bool, error=str)"""
-	rel = f'theories/Props/{prop}.v'
+	rel = rel or f'theories/Props/{prop}.v'
 	path = os.path.join(COQ, rel)
 	if not os.path.exists(path):
 		return dict(theorems=[], compiled=False, error=f'{rel} does not exist')
@@ -310,5 +319,6 @@ def full_build(repo, prop=None, log=print):
 				state['driver_path'] = path
 		if prop:
 			state['props'] = theorem_status(prop)
+			state['ties'] = tie_status(prop)
 	state['build_s'] = round(time.time() - t0, 1)
 	return state
